@@ -255,7 +255,10 @@ def check(prop, tier, base_seed, runs, budget_s, workers, meta, batch=None, out=
                 return False
             f = r.first(prop)
             return f is not None and f[1] == clause
-        small, nruns = shrink(used2, still, max_runs=800, deadline=shrink_deadline, clock=_clock)
+        # a listed finding is reported as it was met: no need to spend the budget minimising it again
+        already_known = match_finding(findings, prop, clause, shape) is not None
+        small, nruns = (used2, 0) if already_known else shrink(used2, still, max_runs=800, deadline=shrink_deadline,
+                                                                clock=_clock)
         res, small_used = replay_tape(prop, tier, small)
         fv = res.first(prop)
         if fv is None or fv[1] != clause:       # cannot happen; keep the original
@@ -263,7 +266,7 @@ def check(prop, tier, base_seed, runs, budget_s, workers, meta, batch=None, out=
             fv = res.first(prop)
         scenario_json = None
         eng_ = _engine_for(prop)
-        if res.scenario is not None and hasattr(eng_, "simplifications"):
+        if res.scenario is not None and hasattr(eng_, "simplifications") and not already_known:
             scn_small, n2 = shrink_scenario(prop, tier, res.scenario, clause, max(shrink_deadline, _clock() + 20))
             r2 = eng_.run_scenario(scn_small, prop, tier)
             f2 = r2.first(prop)
